@@ -3,6 +3,7 @@
 import json, glob, os
 V = os.path.dirname(os.path.dirname(os.path.abspath(__file__)))
 rows = []
+st = json.load(open(os.path.join(V, "seeded", "strengthening.json")))
 for d in sorted(glob.glob(os.path.join(V, "seeded", "*", ""))):
     try:
         m = json.load(open(d + "meta.json")); r = json.load(open(d + "result.json"))
@@ -15,6 +16,10 @@ out = ["# Seeded changes", "",
        "| seed | property | change | needs | confirmed | caught by ./check | first violation reported |", "|---|---|---|---|---|---|---|"]
 for r in rows:
     out.append("| %s | %s | %s | %s | %s | %s | %s |" % r)
+out.append("")
+out.append("## Seeds that were missed at first and what was strengthened\n")
+for k in sorted(st):
+    out.append("* **%s** — %s" % (k, st[k]))
 out.append("")
 out.append("%d seeds, %d confirmed, %d caught." % (len(rows), sum(1 for r in rows if r[4] == "yes"), sum(1 for r in rows if r[5].startswith("yes"))))
 open(os.path.join(V, "seeded", "README.md"), "w").write("\n".join(out) + "\n")
